@@ -3,18 +3,30 @@
 // as premises:
 //
 //   - records_parent_hash: in disconnectBlock, the block stamp handed to
-//     w.Manager.SetSyncedTo carries the parent's hash fetched with
-//     w.Manager.BlockHash(ns, <stamp>.Height) (the assignment
-//     `<x>.Hash = *<hash>` between the fetch and the call targets the stamp
-//     variable itself);
+//     w.Manager.SetSyncedTo carries, in its Hash field, the dereferenced
+//     result of w.Manager.BlockHash(ns, <b.Height - 1>) - the parent's hash.
+//     Two shapes of the construction are understood (they are equivalent:
+//     same calls, same arguments, same field values at the SetSyncedTo call):
+//
+//     incremental   bs := waddrmgr.BlockStamp{Height: b.Height - 1}
+//     hash, err = w.Manager.BlockHash(ns, bs.Height)
+//     <x>.Hash = *hash            (fact: x is bs)
+//     … SetSyncedTo(ns, &bs)
+//
+//     one literal   ph := b.Height - 1                       (optional local)
+//     h, err := w.Manager.BlockHash(ns, ph)
+//     st := waddrmgr.BlockStamp{Height: ph, Hash: *h, …}
+//     … SetSyncedTo(ns, &st)      (fact: true)
 //
 //   - max_reorg_depth: the value of waddrmgr.MaxReorgDepth, and the fact that
 //     staleHeight(h) is h - MaxReorgDepth.
 //
 //     usage: extract-c15 <repo>
 //
-// Everything is syntactic; a shape that is not recognised is refused (exit
-// status 2, message on stderr) instead of guessed.
+// Everything is syntactic.  Each of the two facts is reported separately:
+// {"ok":true,"value":…} or {"ok":false,"why":"…"} when the shape is not
+// recognised (nothing is guessed; lib/extract_c15.py then determines the
+// fact by running the code).
 package main
 
 import (
@@ -28,26 +40,34 @@ import (
 	"strconv"
 )
 
-type result struct {
-	RecordsParentHash bool   `json:"records_parent_hash"`
-	Why               string `json:"why"`
-	StampVar          string `json:"stamp_var"`
-	HashTarget        string `json:"hash_target"`
-	MaxReorgDepth     int64  `json:"max_reorg_depth"`
-	KnownTest         string `json:"known_block_test"` // informational: source text of the "block is known" comparison
-	RollbackArg       string `json:"rollback_arg"`     // informational: argument of TxStore.Rollback in disconnectBlock
-	StartupRollback   string `json:"startup_rollback"` // informational: argument of TxStore.Rollback in syncWithChain
+type boolFact struct {
+	OK    bool   `json:"ok"`
+	Value bool   `json:"value"`
+	Why   string `json:"why"`
 }
 
-func die(format string, a ...interface{}) {
-	fmt.Fprintf(os.Stderr, "extract-c15: "+format+"\n", a...)
-	os.Exit(2)
+type intFact struct {
+	OK    bool   `json:"ok"`
+	Value int64  `json:"value"`
+	Why   string `json:"why"`
 }
+
+type result struct {
+	RecordsParentHash boolFact `json:"records_parent_hash"`
+	MaxReorgDepth     intFact  `json:"max_reorg_depth"`
+	KnownTest         string   `json:"known_block_test"` // informational
+	RollbackArg       string   `json:"rollback_arg"`     // informational
+	StartupRollback   string   `json:"startup_rollback"` // informational
+}
+
+type refuse struct{ msg string }
+
+func refusef(format string, a ...interface{}) { panic(refuse{fmt.Sprintf(format, a...)}) }
 
 func parseFile(fset *token.FileSet, path string) *ast.File {
 	f, err := parser.ParseFile(fset, path, nil, 0)
 	if err != nil {
-		die("parse %s: %v", path, err)
+		refusef("parse %s: %v", path, err)
 	}
 	return f
 }
@@ -72,6 +92,8 @@ func selPath(e ast.Expr) string {
 			return ""
 		}
 		return p + "." + x.Sel.Name
+	case *ast.ParenExpr:
+		return selPath(x.X)
 	}
 	return ""
 }
@@ -88,163 +110,66 @@ func src(fset *token.FileSet, path string, n ast.Node) string {
 	return string(b[s:e])
 }
 
-func main() {
-	if len(os.Args) != 2 {
-		die("usage: extract-c15 <repo>")
+// isHeightMinusOne: the expression is literally b.Height - 1.
+func isHeightMinusOne(e ast.Expr) bool {
+	if p, ok := e.(*ast.ParenExpr); ok {
+		return isHeightMinusOne(p.X)
 	}
-	repo := os.Args[1]
-	fset := token.NewFileSet()
-	var res result
+	be, ok := e.(*ast.BinaryExpr)
+	if !ok || be.Op != token.SUB || selPath(be.X) != "b.Height" {
+		return false
+	}
+	bl, ok := be.Y.(*ast.BasicLit)
+	return ok && bl.Kind == token.INT && bl.Value == "1"
+}
 
-	// ---- wallet/chainntfns.go: disconnectBlock
+// assignments to the identifier name anywhere in body (":=" or "="), and
+// whether it is ever assigned through another statement kind (++ etc.).
+type assignInfo struct {
+	pos token.Pos
+	rhs ast.Expr // nil when the identifier is one of several results of a call
+	tok token.Token
+}
+
+func assignsOf(body *ast.BlockStmt, name string) []assignInfo {
+	var out []assignInfo
+	ast.Inspect(body, func(n ast.Node) bool {
+		switch s := n.(type) {
+		case *ast.AssignStmt:
+			for i, l := range s.Lhs {
+				if id, ok := l.(*ast.Ident); ok && id.Name == name {
+					var rhs ast.Expr
+					if len(s.Lhs) == len(s.Rhs) {
+						rhs = s.Rhs[i]
+					}
+					out = append(out, assignInfo{s.Pos(), rhs, s.Tok})
+				}
+			}
+		case *ast.IncDecStmt:
+			if id, ok := s.X.(*ast.Ident); ok && id.Name == name {
+				out = append(out, assignInfo{s.Pos(), nil, token.INC})
+			}
+		case *ast.UnaryExpr:
+			if s.Op == token.AND {
+				if id, ok := s.X.(*ast.Ident); ok && id.Name == name {
+					// address taken: may be written through the pointer
+					out = append(out, assignInfo{s.Pos(), nil, token.AND})
+				}
+			}
+		}
+		return true
+	})
+	return out
+}
+
+func disconnectFact(fset *token.FileSet, repo string, res *result) (val bool, why string) {
 	cpath := filepath.Join(repo, "wallet", "chainntfns.go")
 	cf := parseFile(fset, cpath)
 	fd := findFunc(cf, "disconnectBlock")
 	if fd == nil {
-		die("%s: func disconnectBlock not found", cpath)
+		refusef("%s: func disconnectBlock not found", cpath)
 	}
-
-	// 1. the SetSyncedTo call and its stamp variable
-	var setCall *ast.CallExpr
-	var stampVar string
-	nSet := 0
-	ast.Inspect(fd.Body, func(n ast.Node) bool {
-		c, ok := n.(*ast.CallExpr)
-		if !ok {
-			return true
-		}
-		if selPath(c.Fun) == "w.Manager.SetSyncedTo" {
-			nSet++
-			setCall = c
-		}
-		return true
-	})
-	if nSet != 1 {
-		die("disconnectBlock: expected exactly one w.Manager.SetSyncedTo call, found %d", nSet)
-	}
-	if len(setCall.Args) != 2 {
-		die("disconnectBlock: SetSyncedTo call with %d arguments", len(setCall.Args))
-	}
-	if u, ok := setCall.Args[1].(*ast.UnaryExpr); ok && u.Op == token.AND {
-		if id, ok := u.X.(*ast.Ident); ok {
-			stampVar = id.Name
-		}
-	}
-	if stampVar == "" {
-		die("disconnectBlock: second argument of SetSyncedTo is not &<identifier>")
-	}
-	res.StampVar = stampVar
-
-	// 2. the stamp's composite literal: Height: b.Height - 1, no Hash key
-	litHash := false
-	litFound := false
-	ast.Inspect(fd.Body, func(n ast.Node) bool {
-		as, ok := n.(*ast.AssignStmt)
-		if !ok || len(as.Lhs) != 1 || len(as.Rhs) != 1 {
-			return true
-		}
-		id, ok := as.Lhs[0].(*ast.Ident)
-		if !ok || id.Name != stampVar {
-			return true
-		}
-		cl, ok := as.Rhs[0].(*ast.CompositeLit)
-		if !ok || selPath(cl.Type) != "waddrmgr.BlockStamp" {
-			die("disconnectBlock: %s is not assigned a waddrmgr.BlockStamp literal", stampVar)
-		}
-		litFound = true
-		heightOK := false
-		for _, el := range cl.Elts {
-			kv, ok := el.(*ast.KeyValueExpr)
-			if !ok {
-				die("disconnectBlock: positional BlockStamp literal")
-			}
-			switch selPath(kv.Key) {
-			case "Height":
-				if be, ok := kv.Value.(*ast.BinaryExpr); ok && be.Op == token.SUB &&
-					selPath(be.X) == "b.Height" {
-					if bl, ok := be.Y.(*ast.BasicLit); ok && bl.Value == "1" {
-						heightOK = true
-					}
-				}
-			case "Hash":
-				litHash = true
-			}
-		}
-		if !heightOK {
-			die("disconnectBlock: the new stamp's height is not b.Height - 1")
-		}
-		return true
-	})
-	if !litFound {
-		die("disconnectBlock: declaration of %s not found", stampVar)
-	}
-	if litHash {
-		die("disconnectBlock: the stamp literal already sets Hash (shape not recognised)")
-	}
-
-	// 3. the parent hash fetch: <h>, err = w.Manager.BlockHash(ns, <stamp>.Height)
-	var fetchPos token.Pos
-	hashVar := ""
-	ast.Inspect(fd.Body, func(n ast.Node) bool {
-		as, ok := n.(*ast.AssignStmt)
-		if !ok || len(as.Rhs) != 1 || len(as.Lhs) != 2 {
-			return true
-		}
-		c, ok := as.Rhs[0].(*ast.CallExpr)
-		if !ok || selPath(c.Fun) != "w.Manager.BlockHash" || len(c.Args) != 2 {
-			return true
-		}
-		if selPath(c.Args[1]) != stampVar+".Height" {
-			return true
-		}
-		id, ok := as.Lhs[0].(*ast.Ident)
-		if !ok {
-			die("disconnectBlock: parent hash fetch assigns to a non-identifier")
-		}
-		if hashVar != "" {
-			die("disconnectBlock: more than one parent hash fetch")
-		}
-		hashVar = id.Name
-		fetchPos = as.Pos()
-		return true
-	})
-	if hashVar == "" {
-		die("disconnectBlock: no w.Manager.BlockHash(ns, %s.Height) fetch found", stampVar)
-	}
-	if !(fetchPos < setCall.Pos()) {
-		die("disconnectBlock: the parent hash is fetched after SetSyncedTo")
-	}
-
-	// 4. assignments <x>.Hash = *<hashVar> between the fetch and SetSyncedTo
-	var targets []string
-	ast.Inspect(fd.Body, func(n ast.Node) bool {
-		as, ok := n.(*ast.AssignStmt)
-		if !ok || len(as.Lhs) != 1 || len(as.Rhs) != 1 || as.Tok != token.ASSIGN {
-			return true
-		}
-		se, ok := as.Lhs[0].(*ast.SelectorExpr)
-		if !ok || se.Sel.Name != "Hash" {
-			return true
-		}
-		st, ok := as.Rhs[0].(*ast.StarExpr)
-		if !ok || selPath(st.X) != hashVar {
-			return true
-		}
-		if as.Pos() > fetchPos && as.Pos() < setCall.Pos() {
-			targets = append(targets, selPath(se.X))
-		}
-		return true
-	})
-	if len(targets) != 1 {
-		die("disconnectBlock: expected exactly one `<x>.Hash = *%s` between the fetch and SetSyncedTo, found %d",
-			hashVar, len(targets))
-	}
-	res.HashTarget = targets[0]
-	res.RecordsParentHash = targets[0] == stampVar
-	res.Why = fmt.Sprintf("SetSyncedTo(ns, &%s); parent hash %s fetched with BlockHash(ns, %s.Height) is assigned to %s.Hash",
-		stampVar, hashVar, stampVar, targets[0])
-
-	// informational: the known-block test and the Rollback argument
+	// informational
 	ast.Inspect(fd.Body, func(n ast.Node) bool {
 		switch x := n.(type) {
 		case *ast.IfStmt:
@@ -258,21 +183,211 @@ func main() {
 		}
 		return true
 	})
-	wpath := filepath.Join(repo, "wallet", "wallet.go")
-	wf := parseFile(fset, wpath)
-	if sf := findFunc(wf, "syncWithChain"); sf != nil {
-		ast.Inspect(sf.Body, func(n ast.Node) bool {
-			if c, ok := n.(*ast.CallExpr); ok && selPath(c.Fun) == "w.TxStore.Rollback" && len(c.Args) == 2 {
-				res.StartupRollback = src(fset, wpath, c.Args[1])
-			}
-			return true
-		})
+
+	// 1. the SetSyncedTo call and its stamp variable
+	var setCall *ast.CallExpr
+	nSet := 0
+	ast.Inspect(fd.Body, func(n ast.Node) bool {
+		if c, ok := n.(*ast.CallExpr); ok && selPath(c.Fun) == "w.Manager.SetSyncedTo" {
+			nSet++
+			setCall = c
+		}
+		return true
+	})
+	if nSet != 1 {
+		refusef("disconnectBlock: expected exactly one w.Manager.SetSyncedTo call, found %d", nSet)
+	}
+	if len(setCall.Args) != 2 {
+		refusef("disconnectBlock: SetSyncedTo call with %d arguments", len(setCall.Args))
+	}
+	stampVar := ""
+	if u, ok := setCall.Args[1].(*ast.UnaryExpr); ok && u.Op == token.AND {
+		if id, ok := u.X.(*ast.Ident); ok {
+			stampVar = id.Name
+		}
+	}
+	if stampVar == "" {
+		refusef("disconnectBlock: second argument of SetSyncedTo is not &<identifier>")
 	}
 
-	// ---- waddrmgr/db.go: MaxReorgDepth and staleHeight
+	// 2. the stamp variable: exactly one whole-value assignment, a keyed
+	//    waddrmgr.BlockStamp literal, before the call; its address is taken
+	//    only in the SetSyncedTo call
+	var lit *ast.CompositeLit
+	var litPos token.Pos
+	for _, a := range assignsOf(fd.Body, stampVar) {
+		if a.tok == token.AND {
+			if a.pos >= setCall.Pos() && a.pos < setCall.End() {
+				continue
+			}
+			refusef("disconnectBlock: the address of %s is taken outside the SetSyncedTo call", stampVar)
+		}
+		if lit != nil {
+			refusef("disconnectBlock: %s is assigned more than once", stampVar)
+		}
+		cl, ok := a.rhs.(*ast.CompositeLit)
+		if !ok || selPath(cl.Type) != "waddrmgr.BlockStamp" {
+			refusef("disconnectBlock: %s is not assigned a waddrmgr.BlockStamp literal", stampVar)
+		}
+		lit, litPos = cl, a.pos
+	}
+	if lit == nil {
+		refusef("disconnectBlock: declaration of %s not found", stampVar)
+	}
+	if !(litPos < setCall.Pos()) {
+		refusef("disconnectBlock: %s is declared after SetSyncedTo", stampVar)
+	}
+	fields := map[string]ast.Expr{}
+	for _, el := range lit.Elts {
+		kv, ok := el.(*ast.KeyValueExpr)
+		if !ok {
+			refusef("disconnectBlock: positional BlockStamp literal")
+		}
+		fields[selPath(kv.Key)] = kv.Value
+	}
+
+	// resolveHeight: the expression denotes b.Height - 1 (directly, through
+	// a local defined once as b.Height - 1, or as <stamp>.Height of the
+	// stamp whose literal says Height: b.Height - 1)
+	var resolveHeight func(e ast.Expr, at token.Pos, depth int) bool
+	resolveHeight = func(e ast.Expr, at token.Pos, depth int) bool {
+		if depth > 3 {
+			return false
+		}
+		if isHeightMinusOne(e) {
+			return true
+		}
+		p := selPath(e)
+		if p == stampVar+".Height" {
+			h, ok := fields["Height"]
+			if !ok || !(litPos < at) {
+				return false
+			}
+			// no later write to <stamp>.Height
+			bad := false
+			ast.Inspect(fd.Body, func(n ast.Node) bool {
+				if as, ok := n.(*ast.AssignStmt); ok {
+					for _, l := range as.Lhs {
+						if selPath(l) == stampVar+".Height" {
+							bad = true
+						}
+					}
+				}
+				return true
+			})
+			return !bad && resolveHeight(h, litPos, depth+1)
+		}
+		if id, ok := e.(*ast.Ident); ok {
+			as := assignsOf(fd.Body, id.Name)
+			if len(as) != 1 || as[0].rhs == nil || !(as[0].pos < at) || as[0].tok == token.AND {
+				return false
+			}
+			return resolveHeight(as[0].rhs, as[0].pos, depth+1)
+		}
+		return false
+	}
+	hExpr, ok := fields["Height"]
+	if !ok || !resolveHeight(hExpr, litPos, 0) {
+		refusef("disconnectBlock: the new stamp's height is not recognisably b.Height - 1")
+	}
+
+	// 3. the parent hash fetch: <h>, err (:=|=) w.Manager.BlockHash(ns, <b.Height - 1>)
+	var fetchPos token.Pos
+	hashVar := ""
+	ast.Inspect(fd.Body, func(n ast.Node) bool {
+		as, ok := n.(*ast.AssignStmt)
+		if !ok || len(as.Rhs) != 1 || len(as.Lhs) != 2 {
+			return true
+		}
+		c, ok := as.Rhs[0].(*ast.CallExpr)
+		if !ok || selPath(c.Fun) != "w.Manager.BlockHash" || len(c.Args) != 2 {
+			return true
+		}
+		if !resolveHeight(c.Args[1], as.Pos(), 0) {
+			return true
+		}
+		id, ok := as.Lhs[0].(*ast.Ident)
+		if !ok {
+			refusef("disconnectBlock: parent hash fetch assigns to a non-identifier")
+		}
+		if hashVar != "" {
+			refusef("disconnectBlock: more than one parent hash fetch")
+		}
+		hashVar, fetchPos = id.Name, as.Pos()
+		return true
+	})
+	if hashVar == "" {
+		refusef("disconnectBlock: no w.Manager.BlockHash(ns, <b.Height - 1>) fetch found")
+	}
+	if !(fetchPos < setCall.Pos()) {
+		refusef("disconnectBlock: the parent hash is fetched after SetSyncedTo")
+	}
+	// the fetched pointer is not re-assigned before SetSyncedTo
+	for _, a := range assignsOf(fd.Body, hashVar) {
+		if a.pos > fetchPos && a.pos < setCall.Pos() {
+			refusef("disconnectBlock: %s is assigned again between the parent hash fetch and SetSyncedTo", hashVar)
+		}
+	}
+	isDerefHash := func(e ast.Expr) bool {
+		st, ok := e.(*ast.StarExpr)
+		return ok && selPath(st.X) == hashVar
+	}
+
+	// 4. writes to <x>.Hash between the fetch and SetSyncedTo
+	type hw struct {
+		target string
+		deref  bool // the value written is *<hashVar>, after the fetch
+	}
+	var writes []hw
+	ast.Inspect(fd.Body, func(n ast.Node) bool {
+		as, ok := n.(*ast.AssignStmt)
+		if !ok {
+			return true
+		}
+		for i, l := range as.Lhs {
+			se, ok := l.(*ast.SelectorExpr)
+			if !ok || se.Sel.Name != "Hash" {
+				continue
+			}
+			if as.Pos() > litPos && as.Pos() < setCall.Pos() || as.Pos() > fetchPos && as.Pos() < setCall.Pos() {
+				d := len(as.Lhs) == len(as.Rhs) && as.Tok == token.ASSIGN && isDerefHash(as.Rhs[i]) &&
+					as.Pos() > fetchPos
+				writes = append(writes, hw{selPath(se.X), d})
+			}
+		}
+		return true
+	})
+
+	if hv, inLit := fields["Hash"]; inLit {
+		// shape "one literal"
+		if !(fetchPos < litPos) {
+			refusef("disconnectBlock: the stamp literal sets Hash before the parent hash is fetched")
+		}
+		if !isDerefHash(hv) {
+			refusef("disconnectBlock: the stamp literal sets Hash to %s, not to *%s", src(fset, cpath, hv), hashVar)
+		}
+		for _, w := range writes {
+			if w.target == stampVar {
+				refusef("disconnectBlock: %s.Hash is written again after the literal", stampVar)
+			}
+		}
+		return true, fmt.Sprintf("SetSyncedTo(ns, &%s); %s is one BlockStamp literal with Height = b.Height - 1 and Hash: *%s, "+
+			"%s fetched with BlockHash(ns, b.Height - 1)", stampVar, stampVar, hashVar, hashVar)
+	}
+	// shape "incremental"
+	if len(writes) != 1 || !writes[0].deref {
+		refusef("disconnectBlock: expected exactly one `<x>.Hash = *%s` between the fetch and SetSyncedTo "+
+			"(or Hash: *%s in the stamp literal), found %d writes to a Hash field", hashVar, hashVar, len(writes))
+	}
+	return writes[0].target == stampVar, fmt.Sprintf("SetSyncedTo(ns, &%s); parent hash %s fetched with BlockHash(ns, b.Height - 1) "+
+		"is assigned to %s.Hash", stampVar, hashVar, writes[0].target)
+}
+
+func depthFact(fset *token.FileSet, repo string) int64 {
 	dpath := filepath.Join(repo, "waddrmgr", "db.go")
 	df := parseFile(fset, dpath)
 	found := false
+	var val int64
 	for _, d := range df.Decls {
 		gd, ok := d.(*ast.GenDecl)
 		if !ok || gd.Tok != token.CONST {
@@ -285,37 +400,85 @@ func main() {
 					continue
 				}
 				if i >= len(vs.Values) {
-					die("%s: MaxReorgDepth has no value", dpath)
+					refusef("%s: MaxReorgDepth has no value", dpath)
 				}
 				bl, ok := vs.Values[i].(*ast.BasicLit)
 				if !ok || bl.Kind != token.INT {
-					die("%s: MaxReorgDepth is not an integer literal", dpath)
+					refusef("%s: MaxReorgDepth is not an integer literal", dpath)
 				}
 				v, err := strconv.ParseInt(bl.Value, 0, 64)
 				if err != nil {
-					die("%s: MaxReorgDepth: %v", dpath, err)
+					refusef("%s: MaxReorgDepth: %v", dpath, err)
 				}
-				res.MaxReorgDepth = v
-				found = true
+				val, found = v, true
 			}
 		}
 	}
 	if !found {
-		die("%s: const MaxReorgDepth not found", dpath)
+		refusef("%s: const MaxReorgDepth not found", dpath)
 	}
 	sh := findFunc(df, "staleHeight")
 	if sh == nil || len(sh.Body.List) != 1 {
-		die("%s: func staleHeight not found or not a single statement", dpath)
+		refusef("%s: func staleHeight not found or not a single statement", dpath)
 	}
 	ret, ok := sh.Body.List[0].(*ast.ReturnStmt)
 	if !ok || len(ret.Results) != 1 {
-		die("%s: staleHeight is not a single return", dpath)
+		refusef("%s: staleHeight is not a single return", dpath)
 	}
 	be, ok := ret.Results[0].(*ast.BinaryExpr)
 	if !ok || be.Op != token.SUB || selPath(be.X) != "height" || selPath(be.Y) != "MaxReorgDepth" {
-		die("%s: staleHeight is not `height - MaxReorgDepth`", dpath)
+		refusef("%s: staleHeight is not `height - MaxReorgDepth`", dpath)
 	}
+	return val
+}
 
+func guard(f func()) (why string) {
+	defer func() {
+		if r := recover(); r != nil {
+			if rf, ok := r.(refuse); ok {
+				why = rf.msg
+				return
+			}
+			panic(r)
+		}
+	}()
+	f()
+	return ""
+}
+
+func main() {
+	if len(os.Args) != 2 {
+		fmt.Fprintln(os.Stderr, "usage: extract-c15 <repo>")
+		os.Exit(2)
+	}
+	repo := os.Args[1]
+	fset := token.NewFileSet()
+	var res result
+
+	if why := guard(func() {
+		v, w := disconnectFact(fset, repo, &res)
+		res.RecordsParentHash = boolFact{OK: true, Value: v, Why: w}
+	}); why != "" {
+		res.RecordsParentHash = boolFact{OK: false, Why: why}
+	}
+	if why := guard(func() {
+		res.MaxReorgDepth = intFact{OK: true, Value: depthFact(fset, repo)}
+	}); why != "" {
+		res.MaxReorgDepth = intFact{OK: false, Why: why}
+	}
+	// informational only
+	_ = guard(func() {
+		wpath := filepath.Join(repo, "wallet", "wallet.go")
+		wf := parseFile(fset, wpath)
+		if sf := findFunc(wf, "syncWithChain"); sf != nil {
+			ast.Inspect(sf.Body, func(n ast.Node) bool {
+				if c, ok := n.(*ast.CallExpr); ok && selPath(c.Fun) == "w.TxStore.Rollback" && len(c.Args) == 2 {
+					res.StartupRollback = src(fset, wpath, c.Args[1])
+				}
+				return true
+			})
+		}
+	})
 	out, _ := json.Marshal(res)
 	fmt.Println(string(out))
 }
